@@ -33,6 +33,7 @@ def run(ctx):
     nf = 0
     try:
         nf += formspaths.run_forms(s, 'multi', 0, subset=forms.FORMS[ctx.seed % 2::2] if ctx.quick else None)
+        nf += formspaths.run_forms(s, 'multi-script', 0, subset=forms.FORMS[ctx.seed % 4::4] if ctx.quick else None)
     except ServerDied:
         tr.emit({'k': 'crash', 'status': srv.exit_status()})
     s.close_all()
